@@ -89,7 +89,8 @@ theorem next_round (o : Obs) (now r1 r2 S : Nat) : (o.next now r1 r2 S).round = 
 theorem ginit_inv (t sp : Nat) (ad : Option Nat) (cap : Nat) (hc : 1 ≤ cap) :
     RingInv (ginit t sp ad cap) := by
   refine ⟨inv_init t sp ad cap, ⟨hc, by simp [ginit, init], by simp [ginit, init],
-    fun h => absurd rfl h, fun _ => rfl⟩, trivial, ?_, ?_, ?_, ?_⟩
+    fun h => absurd rfl h, fun _ => rfl⟩, trivial, ?_, ?_, ?_, ?_, ?_⟩
+  · intro o ho; simp [ginit, init] at ho
   · intro o ho; simp [ginit, init] at ho
   · simp [ginit, init, SP.last, Obs.zero]
   · intro h; exact absurd rfl h
@@ -103,7 +104,7 @@ theorem gstep_inv {g : G} (op : Op) (hi : RingInv g) : RingInv (gstep g op) := b
   | some r =>
     obtain ⟨s', o⟩ := r
     simp only []
-    obtain ⟨hpair, hshape, hlinked, hbnd, hlast, hlive, hcur⟩ := hi
+    obtain ⟨hpair, hshape, hlinked, hbnd, hacc, hlast, hlive, hcur⟩ := hi
     have hpair' := step_inv hpair hst
     have hSpos : 0 < g.s.S → 0 < s'.S := fun h => step_S_pos hpair h hst
     have hlive' : 0 < s'.S → 0 < s'.r1 ∧ 0 < s'.r2 ∧ 0 < s'.S := fun h =>
@@ -112,8 +113,9 @@ theorem gstep_inv {g : G} (op : Op) (hi : RingInv g) : RingInv (gstep g op) := b
     have hempty : ∀ (log' : Log), s'.sp = g.s.sp → g.s.sp.obs = [] →
         RingInv ⟨s', log'⟩ := by
       intro log' hsp he
-      refine ⟨hpair', by simpa only [hsp] using hshape, ?_, ?_, ?_, ?_, ?_⟩
+      refine ⟨hpair', by simpa only [hsp] using hshape, ?_, ?_, ?_, ?_, ?_, ?_⟩
       · simp only [hsp, logical_empty he]; trivial
+      · intro o ho; simp only [hsp, he] at ho; simp at ho
       · intro o ho; simp only [hsp, he] at ho; simp at ho
       · simp only [hsp, last_empty he]; simp [Obs.zero]
       · intro h; simp only [hsp] at h; exact absurd he h
@@ -131,8 +133,9 @@ theorem gstep_inv {g : G} (op : Op) (hi : RingInv g) : RingInv (gstep g op) := b
         · -- an observation of this round already exists
           rw [hup] at hsp
           refine ⟨hpair', by simpa only [hsp] using hshape, by simpa only [hsp] using hlinked,
-            ?_, ?_, ?_, ?_⟩
+            ?_, ?_, ?_, ?_, ?_⟩
           · intro o ho; simp only [hsp] at ho; simp only [hr]; exact hbnd o ho
+          · intro o ho; simp only [hsp] at ho; exact hacc o ho
           · simp only [hsp, hr]; exact hlast
           · intro h; exact hlive' (hSpos hpos.2.2)
           · intro _ k h1 h2
@@ -140,7 +143,7 @@ theorem gstep_inv {g : G} (op : Op) (hi : RingInv g) : RingInv (gstep g op) := b
             omega
         · -- a new observation is recorded
           have hnow : 1 ≤ g.s.round := by omega
-          refine ⟨hpair', by simpa only [hsp] using hsh', ?_, ?_, ?_, ?_, ?_⟩
+          refine ⟨hpair', by simpa only [hsp] using hsh', ?_, ?_, ?_, ?_, ?_, ?_⟩
           · simp only [hsp, hlg']
             have key : ∀ a, (logical g.s.sp).getLast? = some a →
                 Link g.log a (g.s.sp.last.next g.s.round g.s.r1 g.s.r2 g.s.S) := by
@@ -172,6 +175,16 @@ theorem gstep_inv {g : G} (op : Op) (hi : RingInv g) : RingInv (gstep g op) := b
             rcases hmem' o ho with h | h
             · exact hbnd o h
             · subst h; simp only [next_round]; omega
+          · intro o ho
+            simp only [hsp] at ho
+            rcases hmem' o ho with h | h
+            · exact hacc o h
+            · subst h
+              simp only [Obs.next]
+              have : 0 < (if g.s.sp.last.round = 0 then 1 else g.s.round - g.s.sp.last.round) := by
+                split <;> omega
+              have := Nat.mul_pos this hpos.2.2
+              omega
           · simp only [hsp, hl', next_round, hr]; exact Nat.le_refl _
           · intro _; exact hlive' (hSpos hpos.2.2)
           · intro _ k h1 h2
@@ -187,7 +200,7 @@ theorem gstep_inv {g : G} (op : Op) (hi : RingInv g) : RingInv (gstep g op) := b
         rw [hup] at hsp
         exact hempty _ hsp he
     · -- quiet: clock or configuration
-      refine ⟨hpair', by simpa only [hsp] using hshape, ?_, ?_, ?_, ?_, ?_⟩
+      refine ⟨hpair', by simpa only [hsp] using hshape, ?_, ?_, ?_, ?_, ?_, ?_⟩
       · simp only [hsp]
         refine Linked.congr g.s.round (fun k hk => ?_) (fun o ho => ?_) hlinked
         · rw [if_neg (by omega)]
@@ -197,6 +210,7 @@ theorem gstep_inv {g : G} (op : Op) (hi : RingInv g) : RingInv (gstep g op) := b
         have := hbnd o ho
         show 1 ≤ o.round ∧ o.round ≤ s'.round
         exact ⟨this.1, by omega⟩
+      · intro o ho; simp only [hsp] at ho; exact hacc o ho
       · simp only [hsp]; omega
       · intro h; simp only [hsp] at h; simp only [e1, e2, e3]; exact hlive h
       · intro h k h1 h2
